@@ -167,6 +167,25 @@ def order_ok(e, d):
     return [(f.key, canon(f.value)) for f in e.fields] == [(k, canon(v)) for k, v in d.items()]
 
 
+def identity_ok(e, op):
+    """Like a dict, the entry stores the objects it is given and hands those very objects out (a caller may edit them)."""
+    fs = e.fields
+    fd = e.fields_dict
+    if len(fd) != len(fs):
+        return True  # duplicate keys: outside the property
+    for f in fs:
+        if fd.get(f.key) is not f or e.get(f.key) is not f:
+            return False
+    if op[0] == "set_field" and fs:
+        probe = Field("zz_identity", "v")
+        e.set_field(probe)
+        ok = e.fields[-1] is probe and e.get("zz_identity") is probe
+        back = e.pop("zz_identity")
+        if not ok or back is not probe:
+            return False
+    return True
+
+
 def state_of(e):
     return canon(e)
 
@@ -197,6 +216,13 @@ def step(hist, op, acc, observe=True):
         acc.violation(
             {"oracle": "result_equals_dict", "op": op[0]},
             {"case": case, "observed": repr(r), "expected": repr(m)},
+            size=len(hist),
+        )
+        ok = False
+    if ok and not identity_ok(e, op):
+        acc.violation(
+            {"oracle": "same_field_objects", "op": op[0]},
+            {"case": case, "observed": "fields / fields_dict / get / pop hand out different objects for one field", "expected": "one Field object per field, the one that was stored"},
             size=len(hist),
         )
         ok = False
